@@ -56,6 +56,9 @@ def _perturb(spec):
 def _strip(obj):
     if isinstance(obj, dict):
         return {_UUID.sub("<uuid>", str(k)): _strip(v) for k, v in sorted(obj.items(), key=lambda kv: str(kv[0])) if not any(w in str(k).lower() for w in _WALL)}
+    if isinstance(obj, (set, frozenset)):
+        # a set is unordered: its iteration order (which follows the per-process hashes) is not part of the state
+        return sorted((_strip(x) for x in obj), key=lambda v: json.dumps(v, sort_keys=True, default=str))
     if isinstance(obj, (list, tuple)):
         return [_strip(x) for x in obj]
     if isinstance(obj, float):
